@@ -199,6 +199,82 @@ def seed_controls(pid: str):
     return out
 
 
+def _rename_locals(tree: ast.AST, suffix='_rn') -> int:
+    """Rename, consistently inside each function, every local variable that is not a parameter, not declared global/nonlocal and not
+    captured by a nested function/lambda/class.  Returns the number of names renamed."""
+    count = 0
+
+    def own_nodes(fn):
+        """nodes of fn's body excluding nested function/lambda/class bodies (their headers - defaults, decorators - included)"""
+        stack = list(fn.body)
+        while stack:
+            n = stack.pop()
+            yield n
+            for ch in ast.iter_child_nodes(n):
+                if isinstance(ch, (ast.FunctionDef, ast.AsyncFunctionDef, ast.Lambda, ast.ClassDef)):
+                    yield ch
+                    continue
+                stack.append(ch)
+
+    for fn in [n for n in ast.walk(tree) if isinstance(n, (ast.FunctionDef, ast.AsyncFunctionDef))]:
+        params = {a.arg for a in fn.args.posonlyargs + fn.args.args + fn.args.kwonlyargs}
+        if fn.args.vararg:
+            params.add(fn.args.vararg.arg)
+        if fn.args.kwarg:
+            params.add(fn.args.kwarg.arg)
+        declared = set()
+        stored = set()
+        nested_refs = set()
+        own = list(own_nodes(fn))
+        for n in own:
+            if isinstance(n, (ast.Global, ast.Nonlocal)):
+                declared |= set(n.names)
+            if isinstance(n, ast.Name) and isinstance(n.ctx, (ast.Store, ast.Del)):
+                stored.add(n.id)
+            if isinstance(n, (ast.FunctionDef, ast.AsyncFunctionDef, ast.Lambda, ast.ClassDef)):
+                if not isinstance(n, ast.Lambda):
+                    stored.discard(n.name)
+                    declared.add(n.name)
+                for x in ast.walk(n):
+                    if isinstance(x, ast.Name):
+                        nested_refs.add(x.id)
+            if isinstance(n, ast.ExceptHandler) and n.name:
+                declared.add(n.name)          # `except E as e` binds a plain string, leave it alone
+            if isinstance(n, (ast.Import, ast.ImportFrom)):
+                for a in n.names:
+                    declared.add((a.asname or a.name).split('.')[0])
+            if isinstance(n, ast.MatchAs) and n.name:
+                declared.add(n.name)
+            if isinstance(n, ast.MatchStar) and n.name:
+                declared.add(n.name)
+            if isinstance(n, ast.MatchMapping) and n.rest:
+                declared.add(n.rest)
+        # a function nested in `fn` that refers to one of fn's locals captures it
+        victims = {v for v in stored - params - declared - nested_refs if not v.startswith('__')}
+        if not victims:
+            continue
+        for n in own:
+            if isinstance(n, ast.Name) and n.id in victims:
+                n.id = n.id + suffix
+        count += len(victims)
+    return count
+
+
+def reformat_twin(repo, rels, rename: bool):
+    out = {}
+    for rel in rels:
+        if not rel.endswith('.py') or not repo.exists(rel):
+            continue
+        try:
+            tree = ast.parse(repo.read_text(rel))
+        except SyntaxError:
+            continue
+        if rename:
+            _rename_locals(tree)
+        out[rel] = ast.unparse(tree) + '\n'
+    return out
+
+
 # --------------------------------------------------------------------------- running
 _G = {}
 
@@ -251,6 +327,12 @@ def run_battery(pid: str, ctx, repo, mod, root: str):
         ov = noop_twin(repo, targets)
         if ov:
             variants.append(('twin:noop-statement-in-controlled-functions', 'twin', None, ov))
+    if files:
+        variants.append(('twin:reprint-consulted-files (ast.unparse: comments, layout and quoting change)', 'twin', None, reformat_twin(repo, files, rename=False)))
+        variants.append(('twin:rename-every-local-variable-in-consulted-files', 'twin', None, reformat_twin(repo, files, rename=True)))
+    only = os.environ.get('SA_ONLY_CONTROL')
+    if only:
+        variants = [v for v in variants if only in v[0]]
     _G.update(pid=pid, root=root, base=repo)
     jobs = [(n, ov) for n, _, _, ov in variants]
     if jobs:
@@ -297,5 +379,5 @@ def run_battery(pid: str, ctx, repo, mod, root: str):
         print(f"  control {s['control']}: stale, skipped ({s['why'][:120]})")
     if failures:
         raise AnalysisError('control battery failed: ' + '; '.join(failures))
-    if n_break == 0:
+    if n_break == 0 and not only:
         raise AnalysisError('no break control could be applied to this tree: the control battery no longer matches the code')
